@@ -7,3 +7,6 @@ def check(rep, tier):
     core_make.run(rep, tier)
     core_rules.run(rep, tier, parts=("defvjp",))
     rules_exact.run(rep, tier, rules_exact.CLAUSE_PROPS["C05"])
+    from contracts import containers
+    containers.run_ground(rep, tier)
+    containers.run_exact(rep, tier, clauses=('K-structure',))
